@@ -5,7 +5,7 @@ from .. import core, explore, stages
 
 LEVEL = "proof"
 CLAIM = "Theorems (Lean, all schedules, all expressions): Glushkov — a word of positions is in the language of the position-numbered regex iff it is a first/follow/last path (glushkov_local, glushkov_nil); the model of dfa_from_regex accepts exactly the label sequences of such paths for every work-list order (subset_construction_correct); composition with the regex-of-expression lemma (C02_raw_model) gives L(raw automaton) = language of the validated expression; validation_is_meaning — for every grammar and shell the model of check.rs accepts, the validated expression is Spec.meaningAt: call variants joined, descriptions distributed (descriptions_as_specified), the definition Spec.pick chooses at every reference (choice_as_specified), definitions expanded to the end in the dependency order found by the depth-first traversal (resolution_order_topological: every definition once, after everything it refers to; expansion_as_specified: the result is the specification's fixpoint expansion and the specification's fuel always suffices), words (words_as_specified), || levels (levels_as_specified). oracle_has_theorem_semantics — the partial-derivative automaton of the grammar's meaning (the per-grammar oracle below) accepts exactly the key sequences of the denPos words of Spec.meaning, when its construction finishes and no empty alternative occurs (both evaluated by the driver per grammar and counted in the evidence). C02_end_to_end composes them: for every accepted grammar, shell and work-list order the raw automaton of the model accepts exactly the label sequences of the words (denPos) of Spec.meaningAt g. The model is tied to /repo stage by stage on every run (validated expression, positions, firstpos/followpos exact; raw and minimised automata by a verified bisimulation checker). Independently the implementation's raw/minimised automata are decided equivalent to the automaton of the grammar's documented meaning (Spec.Den: choice of definitions, expansion, description rule, || levels; partial derivatives) — a complete per-grammar decision with a distinguishing item sequence as replay."
-NOTE = 'Open (not claimed as proved): the minimiser theorem (C03 decides each minimised automaton by certificate instead) and the correspondence between the input symbols of the model (symOf) and the keys of the oracle, which is what the per-grammar bisimulation check (verified checker) decides together with the automaton of the implementation. Trusted: vh dump code, 64-bit hash of canonical sub-automata as language identifier.'
+NOTE = 'pipeline_recognises_meaning (Proofs/EndToEnd.lean) composes C02_end_to_end with the pipeline model: whenever Pipeline.compile returns, both the raw and the minimised main automaton accept exactly the label sequences of the words of Spec.meaningAt, the side conditions on the position symbols discharged from symbolsOf. Open (not claimed as proved): the correspondence between the input symbols of the model (symOf) and the keys of the oracle, which is what the per-grammar bisimulation check (verified checker) decides together with the automaton of the implementation. Trusted: vh dump code, 64-bit hash of canonical sub-automata as language identifier.'
 TECHNIQUE = 'Lean 4 theorems (Glushkov + subset construction for all schedules) + stage-wise differential correspondence + verified bisimulation against the spec automaton'
 DESIGN_REF = '§3 C02'
 
